@@ -82,15 +82,18 @@ let no_prop (_ : n list) (_ : n list) : n list option = None
 let no_orc (_ : okind) (_ : n list) : z option = None
 let no_orcq (_ : n list) : q option = None
 
-(* DecodeMap: DecodeAndValidate + the negative-weight check *)
-let rec neg_weight (c : cval) : bool = false
-
 let show (r : cval res) : string =
   match r with Ok c -> dump c | Err _ -> "err" | Fuel -> "fuel"
 
-let decode_tree (t : value) : string =
-  show (decode_and_validate no_env no_prop no_orc no_orcq gen_registry model_factory_lazy (fuel_for t)
-          gen_ammo_schema gen_ammo_default t)
+(* config.DecodeAndValidate into AmmoConfig (the C17 decoder on the regenerated schema) *)
+let dv (t : value) : cval res =
+  decode_and_validate no_env no_prop no_orc no_orcq gen_registry model_factory_lazy (fuel_for t)
+    gen_ammo_schema gen_ammo_default t
+
+(* the YAML front-end: ParseAmmoConfig = DecodeMap (decoder + the guard on scenario weights, Model/ScenarioGuard.v) *)
+let decode_tree (t : value) : string = show (read_yaml dv gen_ammo_schema t)
+(* the HCL front-end: ConvertHCLToAmmo = DecodeMap after the tag-driven marshalling *)
+let decode_hcl (hv : hval list) : string = show (read_hcl dv gen_ammo_schema gen_hcl_root hv)
 
 (* what gohcl makes of the description: the HCL-side struct value, read off the documented tree by yaml key *)
 let rec to_hval (k : hkind) (v : value) : hval =
@@ -122,12 +125,14 @@ let str_of_string (x : string) : n list = List.init (String.length x) (fun i -> 
 let rec lexpr_of (v : value) : lexpr =
   match v with
   | VStr x -> ELit (LS x)
+  | VNull -> ELit LNull
   | VList (VInt tag :: rest) ->
       (match int_of_z tag, rest with
        | 0, [VStr name] -> ERef name
        | 1, [a; b] -> ECat (lexpr_of a, lexpr_of b)
        | 2, [a; b] -> EConcat (lexpr_of a, lexpr_of b)
        | 3, [a; b] -> EMerge (lexpr_of a, lexpr_of b)
+       | 4, [a; b] -> ECoalesce (lexpr_of a, lexpr_of b)
        | _ -> failwith "bad expression")
   | VList l -> ELit (LL (List.map (fun x -> match x with VStr y -> y | _ -> failwith "bad list literal") l))
   | VMap kvs -> ELit (LM (List.map (fun (k, x) -> (k, (match x with VStr y -> y | _ -> failwith "bad map literal"))) kvs))
@@ -138,6 +143,7 @@ let value_of_lval (v : lval) : value =
   | LS x -> VStr x
   | LL l -> VList (List.map (fun x -> VStr x) l)
   | LM kvs -> VMap (List.map (fun (k, x) -> (k, VStr x)) kvs)
+  | LNull -> VNull
 
 let get_field (obs : string) (p : string) : string =
   match List.find_opt (fun x -> String.length x > String.length p && String.sub x 0 (String.length p) = p) (split_blank obs) with
@@ -153,26 +159,30 @@ let predict_loc (btok : string) (bodytok : string) (obs : string) : string * str
   let reqs = (match field "reqs" body with Some (_, VList l) -> List.map (fun r -> match r with VMap kvs -> kvs | _ -> failwith "bad request") l | _ -> []) in
   let steps = (match field "steps" body with Some (_, e) -> lexpr_of e | None -> failwith "no steps") in
   let req_keys = ["uri"; "headers"; "tag"; "body"] in
-  (* the body expressions in a fixed order, with the place each value goes to *)
+  (* the body attributes in a fixed order, with the place each value goes to; uri is a plain string field, the others
+     can be nil (pointer, map, slice): null leaves them out *)
   let slots = List.concat (List.mapi (fun i r ->
-      List.filter_map (fun k -> match field k r with Some (_, e) -> Some ((i, k), lexpr_of e) | None -> None) req_keys) reqs) in
-  let exprs = List.map snd slots @ [steps] in
-  let describe (vals : lval list) : value =
+      List.filter_map (fun k -> match field k r with Some (_, e) -> Some ((i, k), (k <> "uri", lexpr_of e)) | None -> None) req_keys) reqs) in
+  let exprs = List.map snd slots @ [(true, steps)] in
+  let describe (vals : lval option list) : value =
     let n = List.length slots in
     let req_vals = List.combine (List.map fst slots) (List.filteri (fun i _ -> i < n) vals) in
     let rs = List.mapi (fun i _ ->
         VMap ([(str_of_string "name", VStr (str_of_string ("r" ^ string_of_int i))); (str_of_string "method", VStr (str_of_string "GET"))]
-              @ List.filter_map (fun ((j, k), v) -> if j = i then Some (str_of_string k, value_of_lval v) else None) req_vals)) reqs in
+              @ List.filter_map (fun ((j, k), v) ->
+                    match v with Some v when j = i -> Some (str_of_string k, value_of_lval v) | _ -> None) req_vals)) reqs in
     VMap [(str_of_string "requests", VList rs);
-          (str_of_string "scenarios", VList [VMap [(str_of_string "name", VStr (str_of_string "s"));
-                                                   (str_of_string "requests", value_of_lval (List.nth vals n))]])] in
+          (str_of_string "scenarios", VList [VMap ([(str_of_string "name", VStr (str_of_string "s"))]
+                                                   @ (match List.nth vals n with
+                                                      | Some v -> [(str_of_string "requests", value_of_lval v)]
+                                                      | None -> []))])] in
   let get = get_field obs in
   (* prediction: the code-shaped model (accumulator loop); verdict: the specification (nearest definition above) *)
-  let pred = (match parse_hcl blocks exprs with
+  let pred = (match parse_hcl_fields blocks exprs with
               | Some vals -> Printf.sprintf "y=%s hl== hi==" (decode_tree (describe vals))
               | None -> "y=- hl=err hi=-") in
   let v, nt =
-    (match spec_locals blocks exprs with
+    (match spec_fields blocks exprs with
      | Some vals ->
          let dy = decode_tree (describe vals) in
          ((if get "y=" = "panic" || get "hl=" = "panic" || get "hi=" = "panic" then "BAD:panic"
@@ -193,7 +203,7 @@ let predict (c : string) (obs : string) : string * string * bool =
       let tree = parse_tree tok in
       let dy = decode_tree tree in
       let hv = (match tree with VMap kvs -> fields_of gen_hcl_root kvs | _ -> []) in
-      let dh = decode_tree (marshal_by_tags gen_hcl_root hv) in
+      let dh = decode_hcl hv in
       let same a = if a = dy then "=" else a in
       let pred = Printf.sprintf "y=%s yml== h=%s hl=%s e== ya==" dy (same dh) (same dh) in
       let parts = split_blank obs in
@@ -207,7 +217,9 @@ let predict (c : string) (obs : string) : string * string * bool =
         else if get "e=" <> "=" then "BAD:edited-file-hcl-differs-from-yaml"
         else if get "ya=" <> "=" then "BAD:yaml-with-anchors-and-flow-style-differs-from-yaml"
         else "ok" in
-      (pred, v, get "y=" <> "err")
+      (* non-trivial: a description the YAML front-end accepts, or one that the decoder alone would accept and the
+         guard of the shared entry point refuses (both front-ends must refuse it) *)
+      (pred, v, get "y=" <> "err" || (match dv tree with Ok _ -> true | _ -> false))
   | _ -> ("bad-case", "BAD:bad-case", false)
 
 let () = run_cases predict
